@@ -9,6 +9,7 @@
 //@ entry h_rawAttrScan
 //@ note W: complete for every TOKEN sequence of length <= NIN after the element name (tokens: name, malformed name, '=', quoted value, unterminated quote, white space, '/', '>', '<', other character, end of input), every initial size of the pair vector, colon list capacity 1 or 2 (so that the growth path is taken)
 //@ note token-level stubs (contracts/scan_rawattr_harness.inc): getQName and basicAttrValueScan consume one token (their own syntax is proved in rdr_getQName / scan_attvalue_basic_*); scanEq and resizeRawAttrColonList are the real functions; KVStringPair / RefVectorOf are recording sinks; emitError message arguments are not modelled
+//@ note colon positions and the previous contents of the pair vector / colon list are distinct concrete markers, not symbolic values: rawAttrScan only stores and copies them, it never inspects them
 #define VERIF_DEFINE_GHOSTS
 #include "verif_prelude.h"
 //@ include scan_rawattr_harness.inc
